@@ -26,8 +26,11 @@ LEAN_MODULES = ["FimVerif.Proofs.C10", "FimVerif.Proofs.Lemmas.C10Dec"]
 P = "FimVerif.C10."
 THEOREMS = [P + t for t in (
     "validate_iff_spec", "site_recorded", "validate_touches_only_sites", "recordedSite_declared", "recordedSite_unlimited",
-    "recordedSite_inferred", "recordedSite_multisite", "siteCount_spec", "validate_iff_specFull_partial", "valid_accepted_of",
-    "valid_accepted", "validate_iff_specFull_counterexample_facility", "validate_iff_specFull_counterexample_components",
+    "recordedSite_inferred", "recordedSite_multisite", "siteCount_spec", "validate_iff_specFull", "validate_iff_specFull_of",
+    "nodes_ok_iff_full", "valid_accepted_of", "valid_accepted", "nodes_full_of_valid", "skipped_type_counterexample",
+    "unseen_property_counterexample", "blank_value_counterexample", "falsy_node_value_counterexample",
+    "gen_no_falsy_node_values", "gen_node_hollow_harmless", "gen_node_properties_seen", "gen_all_node_types_validated",
+    "gen_presence_by_truthiness", "gen_iface_count_class", "gen_faithful",
     "guardrails_refuses_iff", "connect_iff", "guardrail_iff", "guardrail_sound", "gen_guardrails_everywhere",
     "svc_table_pinned", "node_table_pinned", "link_table_pinned", "guard_table_pinned", "no_limit_pinned", "tables_complete",
     "gen_service_properties_readable", "gen_node_required_readable", "gen_names_are_members", "gen_no_instance_limit",
@@ -134,6 +137,8 @@ def table_diff():
 #        "extra": [["direct", kind] | ["dangling"] | ["peer", other svc index] | ["two"]]}
 
 def mknode(ty="VM", site="RENC", groups=None, image=False, mgmt=False, gpu=False):
+    """image: False | True | "blank" (image_ref/image_type given as empty strings: not set, yet not None);
+    mgmt: False | True | "zero" (the all-zero address: an object 'without content', set all the same)"""
     return {"ty": ty, "site": site, "image": image, "mgmt": mgmt, "gpu": gpu, "groups": groups or []}
 
 
@@ -181,6 +186,7 @@ def service_case(ty, placement, declared, kinds, props, layout=0, how="ctor", ex
 
 
 HOLLOW_VARIANTS = {"ero": ["ero@graph", "ero@empty", "ero@nohops"]}
+BLANKABLE = ["mirror_port", "mirror_vlan", "controller_url"]      # string-valued: can be given as the empty string
 
 
 def pbase(p):
@@ -188,8 +194,11 @@ def pbase(p):
 
 
 def abs_props(props):
-    """(properties that are set, those of them whose value is an object without content)"""
-    return sorted({pbase(p) for p in props}), sorted({pbase(p) for p in props if "@" in p})
+    """(properties that are set, those of them whose value is an object without content, properties given as the empty string -
+    not set)"""
+    return (sorted({pbase(p) for p in props if not p.endswith("@blank")}),
+            sorted({pbase(p) for p in props if "@" in p and not p.endswith("@blank")}),
+            sorted({pbase(p) for p in props if p.endswith("@blank")}))
 
 
 def constrained_props(ty):
@@ -242,7 +251,14 @@ def grid_B():
 
 def grid_H():
     """always run: every service type x every constrained object-valued property given as an object without content
-    (graph-reference ERO, ERO without payload, ERO whose path has no hops) - set, whatever its truthiness"""
+    (graph-reference ERO, ERO without payload, ERO whose path has no hops) - set, whatever its truthiness; and every
+    constrained string-valued property given as the empty string - not set, whatever `is None` says"""
+    for ty in SVC_TYPES:
+        for q in constrained_props(ty):
+            if q in BLANKABLE:
+                props = [x for x in baseline_props(ty) if x != q] + [q + "@blank"]
+                for pl, how in (([0, 1], "ctor"), ([0], "connect")):
+                    yield service_case(ty, pl, "none", ["DedicatedPort"] * len(pl), props, how=how)
     for ty in SVC_TYPES:
         for q in constrained_props(ty):
             for v in HOLLOW_VARIANTS.get(q, ()):
@@ -269,10 +285,18 @@ def grid_G():
 def grid_C():
     for ty in NODE_TYPES:
         for site in ("RENC", ""):
-            for image in (False, True):
-                for mgmt in (False, True):
+            for image in (False, True, "blank"):
+                for mgmt in (False, True, "zero"):
                     for gpu in (False, True):
                         yield {"exp": True, "ov": None, "nodes": [mknode(ty, site, image=image, mgmt=mgmt, gpu=gpu)], "svcs": []}
+                        if site and not gpu and (image is True) == (mgmt is True):
+                            # the same node in a substrate topology, and next to a valid node of every other kind
+                            yield {"exp": False, "ov": None, "nodes": [mknode(ty, site, image=image, mgmt=mgmt)], "svcs": []}
+    for ty in NODE_TYPES:
+        for bad in (dict(image=True), dict(mgmt=True), dict(gpu=True), dict(site="")):
+            nodes = [mknode(t2, "UKY") for t2 in NODE_TYPES if t2 != ty]
+            for pos in (0, len(nodes)):
+                yield {"exp": True, "ov": None, "nodes": nodes[:pos] + [mknode(ty, **dict(dict(site="RENC"), **bad))] + nodes[pos:], "svcs": []}
     # a valid service next to an invalid node and the other way round
     for ty in NODE_TYPES:
         c = service_case("L2Bridge", [0, 0], "none", ["DedicatedPort", "SharedPort"], [])
@@ -420,6 +444,8 @@ def prop_kwargs(F, props):
             e = F["ERO"]()
             e.set(payload=F["Path"]())
             kw["ero"] = e
+        elif p.endswith("@blank") and pbase(p) in BLANKABLE:
+            kw[pbase(p)] = ""
         else:
             raise Infra("unknown service property %s" % p)
     return kw
@@ -535,13 +561,16 @@ def build(case, F):
         if n["gpu"]:
             node.add_component(name="gpu1", model_type=F["ComponentModelType"].GPU_RTX6000)
             has_comp = True
-        if n["image"]:
+        if n["image"] == "blank":
+            node.set_properties(image_ref="", image_type="")
+        elif n["image"]:
             node.set_properties(image_ref="default_rocky_8", image_type="qcow2")
         if n["mgmt"]:
-            node.set_property("management_ip", "10.10.10.10")
-        props = (["site"] if n["site"] else []) + (["image_ref", "image_type"] if n["image"] else []) + \
+            node.set_property("management_ip", "0.0.0.0" if n["mgmt"] == "zero" else "10.10.10.10")
+        props = (["site"] if n["site"] else []) + (["image_ref", "image_type"] if n["image"] is True else []) + \
                 (["management_ip"] if n["mgmt"] else []) + (["attached_components_info"] if has_comp else [])
-        b.nodes_abs.append([n["ty"], props])
+        b.nodes_abs.append([n["ty"], props, ["management_ip"] if n["mgmt"] == "zero" else [],
+                            ([] if n["site"] else ["site"]) + (["image_ref", "image_type"] if n["image"] == "blank" else [])])
     svcs = []
     for si, s in enumerate(case["svcs"]):
         name = "svc%d" % si
@@ -573,7 +602,7 @@ def build(case, F):
             n = case["nodes"][x[0]]
             pn = pnames[xi] if pnames else "%s-%s" % (node_name(case, x[0]), b.iface[tuple(x)].name)
             aifs.append(["p", pn, [[n["groups"][x[1]]["kinds"][x[2]], n["site"]]]])
-        b.abstract[name] = [s["ty"], s["site"], abs_props(s["props"])[0], None, aifs, abs_props(s["props"])[1]]
+        b.abstract[name] = [s["ty"], s["site"], abs_props(s["props"])[0], None, aifs, abs_props(s["props"])[1], abs_props(s["props"])[2]]
     for si, s in enumerate(case["svcs"]):
         svc, name = svcs[si], "svc%d" % si
         for xi, x in enumerate(s["extra"]):
@@ -650,7 +679,7 @@ def run_case(case):
             if case.get("xcheck"):
                 mine = [b.abstract[n] for n in order]
                 api = extract(t, order, F)
-                srt = lambda d: [x[:4] + [sorted(x[4], key=canon)] + [list(x[5]) if len(x) > 5 else []] for x in d]   # the API lists interfaces in its own order
+                srt = lambda d: [x[:4] + [sorted(x[4], key=canon)] + [list(x[5]) if len(x) > 5 else []] + [list(x[6]) if len(x) > 6 else []] for x in d]   # the API lists interfaces in its own order
                 if canon(srt(api)) != canon(srt(mine)):
                     # the slice the API reports is not the slice the calls describe (e.g. a site recorded at connect time):
                     # a disagreement between implementation and model of the building calls, not a harness failure
@@ -709,7 +738,8 @@ def extract(t, order, F):
         vals = {p: s.get_property(p) for p in SVC_PROPS}
         props = sorted(p for p, v in vals.items() if v is not None and not (isinstance(v, str) and v == ""))
         hollow = sorted(p for p in props if _is_hollow(vals[p]))
-        out.append([str(s.type), s.site, props, owner.site if owner is not None else None, ifs, hollow])
+        blank = sorted(p for p, v in vals.items() if isinstance(v, str) and v == "")
+        out.append([str(s.type), s.site, props, owner.site if owner is not None else None, ifs, hollow, blank])
     return out
 
 
@@ -784,7 +814,7 @@ def expected(case):
         has = set()
         if n["site"]:
             has.add("site")
-        if n["image"]:
+        if n["image"] is True:
             has |= {"image_ref", "image_type"}
         if n["mgmt"]:
             has.add("management_ip")
@@ -808,7 +838,7 @@ def expected(case):
         for x in s["ifs"]:
             n = case["nodes"][x[0]]
             ifs.append((n["groups"][x[1]]["kinds"][x[2]], n["site"]))
-        services.append(("svc%d" % si, s["ty"], s["site"], {pbase(p) for p in s["props"]}, ifs, s["extra"]))
+        services.append(("svc%d" % si, s["ty"], s["site"], set(abs_props(s["props"])[0]), ifs, s["extra"]))
     peered = {}
     for si, s in enumerate(case["svcs"]):
         for x in s["extra"]:
